@@ -83,8 +83,9 @@ def main(ck, tier, w):
         n, nf, mode, s, e, r0 = j
         blocks = chains.std_chain(n)
         pl = layout.random_placement(r0, n, nf, mode)
-        d = layout.materialise(w.sub('dd'), blocks, pl, r0, fileno={f: f for f in range(nf)}, namer=lambda k: 'blk%05d.dat' % k)
-        if j[0] % 2 == 0:
+        h0 = r0.choice([0, 0, 1000, 209990])          # also chains whose index does not reach down to height 0 (pruned / partial copy)
+        d = layout.materialise(w.sub('dd'), blocks, pl, r0, fileno={f: f for f in range(nf)}, namer=lambda k: 'blk%05d.dat' % k, h0=h0)
+        if j[0] % 2 == 0 and h0 == 0:
             # a node stopped during initial block download: block tip+1 known by header only, later blocks already stored
             # (one appended to each of several files) but not connectable - they belong to no chain and must not keep files open
             hole = datadir.mk_block(blocks[-1]['hash'], [btc.coinbase(n, btc.p2pkh(b'\x77' * 20))], t=1400000000, nonce=1)
@@ -103,7 +104,7 @@ def main(ck, tier, w):
             from lib.ldb import write_leveldb
             write_leveldb(os.path.join(d.path, 'index'), sorted(d.kvs.items()))
         tr = w.sub('trace')
-        r = layout.run_csv(w, d, 'bitcoin', s, e, trace=tr)
+        r = layout.run_csv(w, d, 'bitcoin', s, e, trace=tr, h0=h0)
         peak = max([len(x['open']) for x in r.events if x['ev'] == 'fetched'] or [0])
         fds = max([x['fds'] for x in r.events if x['ev'] == 'fetched'] or [0])
         return j, r, tr, peak, fds
